@@ -1,6 +1,9 @@
 package main
 
 import (
+	"bytes"
+	"io"
+	"testing/iotest"
 	stdjson "encoding/json"
 	"fmt"
 	"math/big"
@@ -169,6 +172,35 @@ func c16Decode(o *Out, k intKind, lit string, toModel bool) {
 		o.emit("A", op, [][]byte{[]byte(strconv.Itoa(k.bits)), []byte(lit)}, []byte(impl), []byte(want), true)
 	} else if impl != want {
 		o.emit("C", op, [][]byte{[]byte(strconv.Itoa(k.bits)), []byte(lit)}, []byte(impl), []byte(want), true)
+	}
+	// stream mode: Decoder.Decode must behave like Unmarshal on the same bytes
+	// (success only if the stream then ends); whole reader and 1-byte reader
+	for _, mode := range []string{"s", "s1"} {
+		if strings.IndexByte(lit, 0) >= 0 {
+			break // embedded NUL in stream mode is the C05/C09 finding StreamEmbeddedNul, not an integer matter
+		}
+		one := mode == "s1"
+		sobs := decodeObs(k, func(b []byte, v interface{}) error {
+			var r io.Reader = bytes.NewReader(b)
+			if one {
+				r = iotest.OneByteReader(r)
+			}
+			d := gojson.NewDecoder(r)
+			if err := d.Decode(v); err != nil {
+				return err
+			}
+			var rest interface{}
+			if err := d.Decode(&rest); err != io.EOF {
+				return fmt.Errorf("trailing data")
+			}
+			return nil
+		}, []byte(lit))
+		o.count("stream_decode_cases", 1)
+		sop := "c16." + mode + "dec_uint"
+		if k.signed {
+			sop = "c16." + mode + "dec_int"
+		}
+		o.emit("A", sop, [][]byte{[]byte(strconv.Itoa(k.bits)), []byte(lit)}, []byte(sobs), []byte(want), true)
 	}
 	if impl != want {
 		o.hist("decode_mismatch_kind", impl+" vs "+want)
